@@ -435,6 +435,88 @@ def site_quantities(repo, system, prefixes):
     return out
 
 
+def translate_user(path, prefixes):
+    """C19: the system / quantities / added units a downstream crate (the harness) declares with the
+    exported macros — read with the same parsers as src/si"""
+    site = 'usr'
+    with open(path, encoding='utf-8') as f:
+        toks = lex_site(f.read(), site)
+    quants = {}
+    for lo, hi in find_macro_calls(toks, 'quantity'):
+        q = parse_quantity_macro(toks, lo, hi, prefixes, site + '.quantity')
+        quants[q['name']] = q
+    sys_calls = list(find_macro_calls(toks, 'system'))
+    if len(sys_calls) != 1:
+        raise SiteError(site, 'expected one system! invocation in the harness, found %d' % len(sys_calls))
+    c = Cur(toks, site, sys_calls[0][0], sys_calls[0][1])
+    c.skip_attrs(); c.expect('id', 'quantities'); c.expect('p', ':'); qs = c.expect('id'); c.expect('p', '{')
+    base = []
+    while not c.at('p', '}'):
+        c.skip_attrs()
+        name = c.expect('id'); c.expect('p', ':'); unit = c.expect('id'); c.expect('p', ','); sym = c.expect('id'); c.expect('p', ';')
+        base.append(dict(name=name, unit=unit, symbol=sym))
+    c.expect('p', '}'); c.skip_attrs(); c.expect('id', 'units'); c.expect('p', ':'); us = c.expect('id'); c.expect('p', '{')
+    out = []
+    while not c.at('p', '}'):
+        c.skip_attrs(); c.accept('id', 'mod')
+        m = c.expect('id'); c.expect('p', '::'); qn = c.expect('id'); c.expect('p', ',')
+        if qn not in quants:
+            raise SiteError(site, 'system! lists %s::%s but no quantity! declares it' % (m, qn))
+        q = dict(quants[qn]); q['module'] = m
+        if len(q['dim']) != len(base):
+            raise SiteError(site, 'dimension arity of %s' % qn)
+        out.append(q)
+    added = []
+    for lo, hi in find_macro_calls(toks, 'unit'):
+        c = Cur(toks, site + '.unit', lo, hi)
+        c.expect('id', 'system'); c.expect('p', ':')
+        while not c.at('p', ';'):
+            c.next()
+        c.expect('p', ';'); c.expect('id', 'quantity'); c.expect('p', ':')
+        path_ids = []
+        while not c.at('p', ';'):
+            k, tx = c.next()
+            if k == 'id':
+                path_ids.append(tx)
+        c.expect('p', ';')
+        while not c.done():
+            c.skip_attrs(); c.expect('p', '@'); uname = c.expect('id'); c.expect('p', ':')
+            coef = parse_expr(c, prefixes, site + '.unit.' + uname)
+            cons = None
+            if c.accept('p', ','):
+                cons = parse_expr(c, prefixes, site + '.unit.' + uname)
+            c.expect('p', ';'); abbr = c.expect('str'); c.expect('p', ','); sing = c.expect('str'); c.expect('p', ','); plur = c.expect('str'); c.expect('p', ';')
+            added.append(dict(quantity=path_ids[-1], name=uname, coef=coef, cons=cons, abbr=abbr, sing=sing, plur=plur))
+    return dict(quantities=out, base=base, added=added, qs=qs, us=us)
+
+
+def emit_user(t, usr, outdir):
+    prefixes = t['prefixes']
+    lines = ['-- GENERATED by translate/translate.py from /verif/harness/src/bin/usr.rs — do not edit', 'import Uom.Model.Table', 'namespace Uom.Gen.Usr', 'open Uom', '']
+
+    def unit_row(u):
+        coef = lean_expr(expand_prefix(u['coef'], prefixes))
+        cons = 'none' if u['cons'] is None else '(some %s)' % lean_expr(expand_prefix(u['cons'], prefixes))
+        return '  { name := %s, coef := %s, cons := %s,\n    abbr := %s, sing := %s, plur := %s }' % (
+            lean_str(u['name']), coef, cons, lean_str(u['abbr']), lean_str(u['sing']), lean_str(u['plur']))
+
+    for q in usr['quantities']:
+        lines.append('def q_%s : QuantityDecl := {\n  modName := %s, name := %s, desc := %s,\n  dim := [%s], kind := 0,\n  units := [\n%s] }' % (
+            q['module'], lean_str('usr.' + q['module']), lean_str(q['name']), lean_str(q['desc']), ', '.join(str(d) for d in q['dim']),
+            ',\n'.join(unit_row(u) for u in q['units'])))
+    lines.append('def table : List QuantityDecl := [%s]' % ', '.join('q_' + q['module'] for q in usr['quantities']))
+    lines.append('def baseUnits : List (Str × Str) := [%s]' % ', '.join('(%s, %s)' % (lean_str('usr.' + b['name']), lean_str(b['unit'])) for b in usr['base']))
+    by_q = {}
+    for a in usr['added']:
+        by_q.setdefault(a['quantity'], []).append(a)
+    lines.append('/-- units added to built-in quantities with `unit!` (absent from the registry, as documented) -/')
+    lines.append('def added : List QuantityDecl := [%s]' % ',\n'.join(
+        '{\n  modName := %s, name := %s, desc := %s, dim := [], kind := 0,\n  units := [\n%s] }' % (
+            lean_str('added.' + qn), lean_str(qn), lean_str(qn), ',\n'.join(unit_row(u) for u in us)) for qn, us in by_q.items()))
+    lines.append('end Uom.Gen.Usr')
+    return write_if_changed(os.path.join(outdir, 'Usr.lean'), '\n'.join(lines) + '\n')
+
+
 def translate(repo):
     prefixes, prefix_order = site_prefix(repo)
     system, si_toks = site_system(repo)
@@ -704,6 +786,13 @@ def main():
     changed = 0
     changed += emit_certs(t, os.path.join(verif, 'lean', 'Uom', 'Gen'), verif)
     changed += emit_label_checks(t, os.path.join(verif, 'lean', 'Uom', 'Gen'))
+    try:
+        usr = translate_user(os.path.join(verif, 'harness', 'src', 'bin', 'usr.rs'), t['prefixes'])
+    except SiteError as ex:
+        print('translator-broken:%s %s' % (ex.site, ex.msg))
+        return 3
+    changed += emit_user(t, usr, os.path.join(verif, 'lean', 'Uom', 'Gen'))
+    t['usr'] = dict(quantities=len(usr['quantities']), units=sum(len(q['units']) for q in usr['quantities']), added=len(usr['added']))
     changed += write_if_changed(os.path.join(verif, 'build', 'table.json'), json.dumps(t, ensure_ascii=False, indent=0))
     changed += emit_lean(t, os.path.join(verif, 'lean', 'Uom', 'Gen'))
     changed += emit_rust(t, os.path.join(verif, 'harness', 'src', 'gen'))
